@@ -25,6 +25,8 @@
 #include <vector>
 #include <string>
 #include <tuple>
+#include <cstring>
+#include <cstdint>
 
 namespace nm = nmtools; namespace na = nmtools::array; namespace fn = nmtools::functional;
 namespace view = nmtools::view; namespace meta = nmtools::meta; namespace ix = nmtools::index;
@@ -32,7 +34,15 @@ using namespace proto;
 
 namespace c13 {
 
+// element type of the leaves: int (provenance data) or, with -DC13_ELEM_FLOAT, float (parametrised activations).
+// Elements are printed as integer CODES: the value itself for int, the binary32 bit pattern (as int32) for float.
+#ifdef C13_ELEM_FLOAT
+using elem_t = float;
+inline long long to_code(float v) { int32_t b; static_assert(sizeof(b) == sizeof(v)); std::memcpy(&b, &v, sizeof(b)); return (long long)b; }
+#else
 using elem_t = int;
+inline long long to_code(int v) { return (long long)v; }
+#endif
 using arr_t  = na::ndarray_t<std::vector<elem_t>, std::vector<size_t>>;
 using carr_t = na::column_major_ndarray_t<std::vector<elem_t>, std::vector<size_t>>;
 using ks_t   = na::kernel_size<size_t>;
@@ -42,6 +52,7 @@ using dshape_t = nmtools_static_vector<size_t,8>;     // what context_t::create_
 inline elem_t leaf_value(const std::string& data, size_t j, size_t k) {
     if (data == "small") return (elem_t)(((k * 7 + 3 * j) % 5) + 1);
     if (data == "cond" && j == 0) return (elem_t)(k % 3 != 1);        // 0/1 valued condition operand
+    if (data == "float") return (elem_t)(0.5 * (double)((k * 7 + 3 * j) % 13) - 3.0);   // multiples of 0.5 in [-3, 3]
     return (elem_t)(k + 1000 * j);
 }
 
@@ -76,7 +87,7 @@ template <typename T> inline void dump(const T& x, uvec& shape, std::vector<long
     shape.clear(); for (size_t i = 0; i < (size_t)nm::len(s); i++) shape.push_back((size_t)nm::at(s, i));
     size_t n = 1; for (auto e : shape) n *= e;
     auto nd = ix::ndindex(shape);
-    data.clear(); for (size_t k = 0; k < n; k++) data.push_back((long long)nm::apply_at(x, nd[k]));
+    data.clear(); for (size_t k = 0; k < n; k++) data.push_back(to_code((elem_t)nm::apply_at(x, nd[k])));
 }
 
 // ---- operand rebuilding -------------------------------------------------------------------------------------------
@@ -137,9 +148,14 @@ template <typename T> inline bool host_eval(const T& v, uvec& hshape, std::vecto
     return true;
 }
 
-inline std::string answer(const uvec& hshape, const std::vector<long long>& hdata, const std::vector<elem_t>& out) {
-    bool eq = true; for (size_t k = 0; k < out.size(); k++) eq = eq && ((long long)out[k] == hdata[k]);
+// out: element codes (to_code) of the output buffer
+inline std::string answer_codes(const uvec& hshape, const std::vector<long long>& hdata, const std::vector<long long>& out) {
+    bool eq = true; for (size_t k = 0; k < out.size(); k++) eq = eq && (out[k] == hdata[k]);
     return "ok shape=" + fmt(hshape) + " out=" + fmt(out) + " hosteq=" + (eq ? "1" : "0");
+}
+inline std::string answer(const uvec& hshape, const std::vector<long long>& hdata, const std::vector<elem_t>& out) {
+    std::vector<long long> codes; for (auto v : out) codes.push_back(to_code(v));
+    return answer_codes(hshape, hdata, codes);
 }
 
 // mode=dev: extraction + device_array operands + fn::apply (CUDA / HIP / SYCL).  v: a (non-maybe) view
